@@ -24,9 +24,9 @@ func viewTables() map[string][]statedMonth {
 		return out
 	}
 	return map[string][]statedMonth{
-		"no leap month":                  mk([][2]int64{{2019, 11}, {2019, 12}, {2020, 1}, {2020, 2}, {2020, 3}, {2020, 4}, {2020, 5}, {2020, 6}, {2020, 7}, {2020, 8}, {2020, 9}, {2020, 10}, {2020, 11}, {2020, 12}, {2021, 1}}),
-		"leap 4th month":                 mk([][2]int64{{2019, 11}, {2019, 12}, {2020, 1}, {2020, 2}, {2020, 3}, {2020, 4}, {2020, -4}, {2020, 5}, {2020, 6}, {2020, 7}, {2020, 8}, {2020, 9}, {2020, 10}, {2020, 11}, {2020, 12}}),
-		"leap 12th month":                mk([][2]int64{{2019, 11}, {2019, 12}, {2020, 1}, {2020, 2}, {2020, 3}, {2020, 4}, {2020, 5}, {2020, 6}, {2020, 7}, {2020, 8}, {2020, 9}, {2020, 10}, {2020, 11}, {2020, 12}, {2020, -12}}),
+		"no leap month":                 mk([][2]int64{{2019, 11}, {2019, 12}, {2020, 1}, {2020, 2}, {2020, 3}, {2020, 4}, {2020, 5}, {2020, 6}, {2020, 7}, {2020, 8}, {2020, 9}, {2020, 10}, {2020, 11}, {2020, 12}, {2021, 1}}),
+		"leap 4th month":                mk([][2]int64{{2019, 11}, {2019, 12}, {2020, 1}, {2020, 2}, {2020, 3}, {2020, 4}, {2020, -4}, {2020, 5}, {2020, 6}, {2020, 7}, {2020, 8}, {2020, 9}, {2020, 10}, {2020, 11}, {2020, 12}}),
+		"leap 12th month":               mk([][2]int64{{2019, 11}, {2019, 12}, {2020, 1}, {2020, 2}, {2020, 3}, {2020, 4}, {2020, 5}, {2020, 6}, {2020, 7}, {2020, 8}, {2020, 9}, {2020, 10}, {2020, 11}, {2020, 12}, {2020, -12}}),
 		"leap months of the neighbours": mk([][2]int64{{2019, 11}, {2019, -11}, {2019, 12}, {2020, 1}, {2020, 2}, {2020, 3}, {2020, 4}, {2020, 5}, {2020, 6}, {2020, 7}, {2020, 8}, {2020, 9}, {2020, 10}, {2020, 11}, {2020, 12}}),
 	}
 }
